@@ -44,7 +44,7 @@ def run(v, tier, replay):
                 if rc == 3 or not reason:
                     evs.append(dict(ev="crash", mode=j[0], reason="driver stuck / exited %s" % rc, last=last, stack=[]))
                 else:
-                    evs.append(dict(ev="crash", mode=j[0], reason=reason[0][:300], last=last, stack=[l.strip() for l in tail.split("\n") if "/repo/" in l][:4]))
+                    evs.append(dict(ev="crash", mode=j[0], reason=reason[0][:300], last=last, stack=[l.strip() for l in tail.split("\n") if lib.REPO_MARK in l][:4]))
             events += [dict(e, group="%s%s" % j) for e in evs if e["ev"] in ("probe", "stop", "decode", "crash")]
     v.cov["frame_edges_in_spec"] = len(fedges); v.cov["frame_edges_executed"] = len(fedges & fcov)
     v.cov["decoder_edges_in_spec"] = len(dedges); v.cov["decoder_edges_executed"] = len(dedges & dcov)
@@ -63,7 +63,7 @@ def run(v, tier, replay):
         e = events[int(m.group(1)) - 1]
         if e["ev"] == "crash":
             last = e.get("last") or {}
-            where = (e["stack"] or ["?"])[0].split(" ")[0].split("/repo/")[-1]
+            where = (e["stack"] or ["?"])[0].split(" ")[0].split(lib.REPO_MARK)[-1]
             sig = "crash in %s after %s | %s | %s" % (e["mode"], "%s len=%s ack=%s no=%s" % (last.get("ref"), last.get("len"), last.get("ack"), last.get("no")), e["reason"][:100], where)
         elif e["ev"] == "probe":
             sig = "witness tube broken after hostile frames %s: %s" % (e["after"], e["witness"][:80])
